@@ -15,6 +15,8 @@ from ..core import Given
 from ..findings import is_open
 
 from raysect.core.math import Vector3D
+import raysect.core.math.function.float as RF
+import raysect.core.math.function.vector3d as RV
 import cherab.core.math as M
 
 ID = "C13"
@@ -30,21 +32,32 @@ def _excluded(fid):
     return is_open(fid) and not (fid in _NOEX or "all" in _NOEX)
 
 
-EXCLUDE = _excluded("C13-remainder-returns-period")       # x < 0 with fl(fmod(x, p) + p) == p
+EXCLUDE = _excluded("C13-remainder-returns-period")       # x < 0 with fl(fmod(x, p) + p) == p   (fixed in 4bec7b5)
 EXCLUDE_DIAG = _excluded("C13-mask-hole-on-diagonal")      # points within rounding distance of a vertex-vertex chord
 
-RULE = ("Wrapped object = recording Python callable c3 + c0*asinh(x) + c1*asinh(y) + c2*asinh(z) (odd, strictly monotone, "
-        "finite for every finite double; vectors use the three cyclic rotations of the coefficient row), coefficients "
-        "drawn in the case. Coordinates: all finite doubles (Hypothesis floats incl. subnormals and 1e308) mixed with "
-        "+-0, +-5e-324, +-1e-20, +-1e15..1e300 and ordinary values. Sub-checks: iso (IsoMapper2D/3D), swizzle (Swizzle2D; "
-        "Swizzle3D: every case runs all 27 shapes, or all 8 invalid shapes), slice (Slice2D/3D: every case runs all int/str "
-        "axis selectors of the class, or all 8 invalid ones), "
-        "clamp (ClampInput/ClampOutput 1D-3D, default/finite limits, inverted limits), cyl (AxisymmetricMapper, "
-        "VectorAxisymmetricMapper, CylindricalTransform, VectorCylindricalTransform), periodic ((Vector)PeriodicTransform"
-        "1D-3D; x = k*period, its float neighbours, +-period*2^-e, subnormals, huge, any double; period 0 = axis not "
-        "periodic), mask (PolygonMask2D on star-shaped and U/zigzag template polygons, 3-16 vertices, both orientations, "
-        "all cyclic rotations of the vertex list, probe points in the bounding box, beside vertices, beside edge "
-        "mid-points and on chords), samplers (all 14 sample* functions, counts 1..5). "
+RULE = ("Wrapped object = recording callable c3 + c0*asinh(x) + c1*asinh(y) + c2*asinh(z) (odd, strictly monotone, finite for "
+        "every finite double; vectors use the three cyclic rotations of the coefficient row), coefficients drawn in the "
+        "case, handed over as a callable object, a plain Python function or a raysect Function object (Constant + callable). "
+        "Coordinates: all finite doubles (Hypothesis floats incl. subnormals and 1e308) mixed with +-0, +-5e-324, +-1e-20, "
+        "0.1, 2.2, 1234.5678, +-1e39, +-1e-46 (not float32 values), +-1e15..1e300 and ordinary values. FORMS: call arguments and "
+        "constructor values (slice value, clamp limits, periods, range ends) are passed as Python float / Python int / "
+        "numpy.float64 / numpy.float32 scalars (the oracle uses the float64 value of what is passed); clamp limits "
+        "positional, by keyword or omitted; Swizzle3D shapes as tuples of int or numpy ints; sampler points/axes and polygon "
+        "vertices as list / tuple / ndarray float64, float32, int64, Fortran-ordered and strided views. "
+        "Sub-checks: iso (IsoMapper2D/3D), swizzle (Swizzle2D; Swizzle3D: every case runs all 27 shapes, or all 8 invalid "
+        "shapes), slice (Slice2D/3D: every case runs all int/str axis selectors of the class, or all 8 invalid ones; .axis/"
+        ".value read back twice), clamp (ClampInput/ClampOutput 1D-3D, default/finite limits, inverted limits), cyl "
+        "(AxisymmetricMapper, VectorAxisymmetricMapper, CylindricalTransform, VectorCylindricalTransform; y = +-0.0 with x < 0 "
+        "generated on purpose), periodic ((Vector)PeriodicTransform1D-3D; x = k*period, its float neighbours, +-period*2^-e, "
+        "subnormals, huge, any double; period 0 = axis not periodic; readable period attributes read back), mask "
+        "(PolygonMask2D on star-shaped, convex, dart and U/zigzag/spiral/comb polygons, 3-16 vertices; polygons with <= 4 "
+        "vertices are run from every starting vertex in both orientations inside one case, larger ones with a drawn "
+        "rotation/orientation; probe points in the bounding box, beside vertices, beside edge mid-points and on chords), "
+        "samplers (all 14 sample* functions, counts 1..5, 1-D up to 33). RE-USE: every wrapper instance is evaluated at 1-3 "
+        "points and then again at the first point (value and inner argument must repeat bit for bit); every mask is evaluated "
+        "forward, backward and twice in a row per point; every sampler is called twice (first result intact, equal, no shared "
+        "memory). CALLER-OWNED: arrays / lists handed to samplers and PolygonMask2D are bit-identical afterwards and "
+        "overwriting the vertex container after construction does not change the mask. "
         "Non-trivial: iso/swizzle/slice = pairwise distinct coordinates (so that any permutation is visible) or selectors that "
         "must be rejected; clamp = a coordinate/value outside or exactly on a limit, or rejected limits; cyl = point not in "
         "the open first quadrant (axis, branch cut y=+-0 & x<0, origin, other quadrants) or |coordinate| outside "
@@ -53,47 +66,68 @@ RULE = ("Wrapped object = recording Python callable c3 + c0*asinh(x) + c1*asinh(
         "count of 1, pairwise different counts per axis, >= 2 scattered points, or a rejected range.")
 ASSUMPTIONS = ["CPython's math.fmod/atan2/hypot/asinh and float + - are IEEE-754 double operations (same libm as the extension)",
                "a Python callable handed to a wrapper is invoked through raysect's autowrap with Python floats",
+               "a Python int / numpy scalar argument means its exact float64 value; raysect Constant(0) + f evaluates to 0.0 + f(...)",
                "exact rational arithmetic of fractions.Fraction",
                "cyl: max(|x|,|y|) is 0 or within [1e-140, 1e150] - outside, sqrt(x*x+y*y) under/overflows (see notes/C13-hypot-range.py); "
                "coordinates are metres in every in-repo caller",
                "samplers: |range end| <= 8e307 so that max-min is finite (numpy.linspace limit)",
                "mask: probe points closer than 1e-9*size to a polygon edge are not judged; polygons have >= 3 non-coincident vertices"]
 TOLERANCES = {
-    "exact": "swizzle/slice/clamp/iso inner arguments, all scalar return values, sampler entries: == (no tolerance)",
+    "exact": "swizzle/slice/clamp/iso inner arguments, read-back attributes, all scalar return values, sampler entries: == (no tolerance)",
     "radius": "|r - hypot(x,y)| <= 4u*hypot, u=2^-53: sqrt(x*x+y*y) has 3 roundings under a square root (<= 2u), the hypot reference <= 1 ulp (<= 2u)",
     "angle": "|phi - math.atan2(y,x)| <= 2 ulp(phi) (two libm evaluations of the same function)",
     "rotation": "|v_got - Rz(phi) v| <= 1e-12*|v|: phi -> degrees -> radians -> sin/cos costs a few u*|phi| <= 1e-15, DESIGN asks 1e-12",
-    "periodic": "x >= 0 or fmod(x,p) == 0: x - inner = k*p exactly (fmod is exact). x < 0: inner = fl(fmod(x,p) + p), one rounding "
-                "of a value < p, so |x - inner - k*p| <= ulp(p)/2. In both cases 0 <= inner < p is demanded strictly.",
+    "periodic": "x >= 0 or fmod(x,p) == 0: x - inner = k*p exactly (fmod is exact). x < 0: inner = fl(fmod(x,p) + p) (or 0 when that "
+                "rounds to p), one rounding of a value < p, so |x - inner - k*p| <= ulp(p)/2. In both cases 0 <= inner < p is demanded strictly.",
     "linspace": "|x_i - (min + i*(max-min)/(n-1))| <= 4 ulp(max(|min|,|max|)) (delta, step, product, sum: 4 roundings of values <= 2*scale); "
                 "end points exact",
 }
 
 _ONLY = set(filter(None, os.environ.get("VERIF_ONLY", "").split(",")))
+_WRAP_SUBS = ["iso", "swizzle", "slice", "clamp", "cyl", "periodic"]
+_SAMPLER_FNS = ["sample1d", "sample2d", "sample3d", "samplevector2d", "samplevector3d",
+                "sample1d_points", "sample2d_points", "sample3d_points", "samplevector2d_points", "samplevector3d_points",
+                "sample2d_grid", "sample3d_grid", "samplevector2d_grid", "samplevector3d_grid"]
 REQUIRED_LABELS = [l for l in [
+    # (e) every public class / function of the anchored files
     "iso:IsoMapper2D", "iso:IsoMapper3D",
-    "swizzle:Swizzle2D", "swizzle:Swizzle3D", "swizzle:invalid",
-    "slice:Slice2D", "slice:Slice3D", "slice:invalid", "slice:str-axis",
-    "clamp:in:clamped", "clamp:in:on-limit", "clamp:out:clamped", "clamp:invalid",
+    "swizzle:Swizzle2D", "swizzle:Swizzle3D", "swizzle:invalid", "swizzle:shape:int", "swizzle:shape:npint",
+    "slice:Slice2D", "slice:Slice3D", "slice:invalid", "slice:str-axis", "slice:value-not-f32",
+    "clamp:ClampInput1D", "clamp:ClampInput2D", "clamp:ClampInput3D", "clamp:ClampOutput1D", "clamp:ClampOutput2D", "clamp:ClampOutput3D",
+    "clamp:in:clamped", "clamp:in:on-limit", "clamp:out:clamped", "clamp:invalid", "clamp:positional", "clamp:keyword", "clamp:default-limit",
+    "clamp:limit-not-f32",
     "cyl:AxisymmetricMapper", "cyl:VectorAxisymmetricMapper", "cyl:CylindricalTransform", "cyl:VectorCylindricalTransform",
     "cyl:branch-cut", "cyl:origin", "cyl:on-axis",
+    "cyl:VectorAxisymmetricMapper:y=+0,x<0", "cyl:VectorAxisymmetricMapper:y=-0,x<0",
+    "cyl:VectorCylindricalTransform:y=+0,x<0", "cyl:VectorCylindricalTransform:y=-0,x<0",
+    "cyl:CylindricalTransform:y=+0,x<0", "cyl:CylindricalTransform:y=-0,x<0",
     "periodic:P1", "periodic:P2", "periodic:P3", "periodic:VP1", "periodic:VP2", "periodic:VP3",
     "periodic:negative", "periodic:exact-multiple", "periodic:tiny", "periodic:huge", "periodic:period0", "periodic:invalid",
-    "mask:concave", "mask:convex", "mask:cw", "mask:ccw", "mask:inside", "mask:outside",
-    "samplers:n=1", "samplers:non-cubic", "samplers:invalid",
-] if not _ONLY or l.split(":")[0] in _ONLY]
+    "periodic:period-not-f32", "periodic:attr-read",
+    "mask:concave", "mask:convex", "mask:cw", "mask:ccw", "mask:inside", "mask:outside", "mask:n=3", "mask:n=4", "mask:dart",
+    "mask:allrot", "mask:form:list", "mask:form:tuple", "mask:form:ndarray", "mask:form:f32", "mask:form:int", "mask:form:fortran",
+    "mask:form:strided", "mask:caller-mutates",
+    "samplers:n=1", "samplers:n=2", "samplers:non-cubic", "samplers:nx!=nz", "samplers:invalid",
+    "samplers:form:list", "samplers:form:tuple", "samplers:form:ndarray", "samplers:form:f32", "samplers:form:int",
+    "samplers:form:fortran", "samplers:form:strided", "samplers:range:int", "samplers:range:np32",
+] + ["samplers:" + f for f in _SAMPLER_FNS]
+  + ["%s:%s" % (s, k) for s in _WRAP_SUBS for k in ("af:int", "af:np32", "af:np64", "af:float", "wf:object", "wf:function", "wf:raysect", "reuse")]
+  + ["%s:%s" % (s, k) for s in ("slice", "clamp", "periodic") for k in ("cf:int", "cf:np32", "cf:np64", "cf:float")]
+    if not _ONLY or l.split(":")[0] in _ONLY]
 
 U = 2.0 ** -53
 
 # ------------------------------------------------------------------------------------------------ strategies
+_NOT_F32 = [0.1, -0.1, 2.2, -2.2, 1234.5678, -1234.5678, 1e39, -1e39, 1e-46, -1e-46]
 _SPECIAL = [0.0, -0.0, 5e-324, -5e-324, 2.2250738585072014e-308, -2.2250738585072014e-308, 1e-300, -1e-300,
-            1e-20, -1e-20, 1e-12, -1e-12, 1.0, -1.0, 0.5, -0.5, 3.0, 1e15, -1e15, 9007199254740993.0, 1e16, -1e16,
-            1e150, -1e150, 1e300, -1e300, 1.7976931348623157e308, -1.7976931348623157e308]
+            1e-20, -1e-20, 1e-12, -1e-12, 1.0, -1.0, 0.5, -0.5, 3.0, 0.01, 1e15, -1e15, 9007199254740993.0, 1e16, -1e16,
+            1e150, -1e150, 1e300, -1e300, 1.7976931348623157e308, -1.7976931348623157e308] + _NOT_F32
 
 
 def coord():
     return st.one_of(st.floats(allow_nan=False, allow_infinity=False, width=64),
                      st.sampled_from(_SPECIAL),
+                     st.sampled_from(_NOT_F32),
                      st.floats(-10.0, 10.0),
                      st.floats(-10.0, 10.0).map(lambda v: float(round(v))))
 
@@ -104,6 +138,40 @@ def coeffs():
 
 def points(dim, lo=1, hi=3, c=None):
     return st.lists(st.lists(c or coord(), min_size=dim, max_size=dim), min_size=lo, max_size=hi)
+
+
+_SFORMS = ["float", "float", "int", "np64", "np32"]
+
+
+def forms():
+    """af: form of the call arguments, cf: form of constructor values, wf: form of the wrapped function."""
+    return st.fixed_dictionaries({"af": st.sampled_from(_SFORMS), "cf": st.sampled_from(_SFORMS),
+                                  "wf": st.sampled_from(["object", "object", "function", "raysect"])})
+
+
+def _with(case, fm):
+    case.update(fm)
+    return case
+
+
+def canon(form, v):
+    """(object to pass, its exact float64 value) for scalar form `form`; falls back to the Python float when the form
+    cannot hold the value (int beyond 2^53, float32 overflow)."""
+    v = float(v)
+    if form == "int" and abs(v) < 2.0 ** 53:
+        i = int(v)
+        return i, float(i)
+    if form == "np32" and abs(v) <= 3.4028234663852886e38:
+        w = np.float32(v)
+        return w, float(w)
+    if form == "np64":
+        return np.float64(v), v
+    return v, v
+
+
+def _is_f32(v):
+    """v is exactly representable as a float32."""
+    return abs(v) <= 3.4028234663852886e38 and float(np.float32(v)) == v
 
 
 # ------------------------------------------------------------------------------------------------ recording callables
@@ -147,6 +215,27 @@ class VRec:
         return vval(self.co, a)
 
 
+def wrapped(ctx, form, rec, dim):
+    """The object handed to the code under test for recorder `rec`."""
+    ctx.label("wf:" + form)
+    if form == "function":
+        if dim == 1:
+            def fn(x):
+                return rec(x)
+        elif dim == 2:
+            def fn(x, y):
+                return rec(x, y)
+        else:
+            def fn(x, y, z):
+                return rec(x, y, z)
+        return fn
+    if form == "raysect":
+        if isinstance(rec, VRec):
+            return getattr(RV, "Constant%dD" % dim)(Vector3D(0, 0, 0)) + rec
+        return getattr(RF, "Constant%dD" % dim)(0.0) + rec
+    return rec
+
+
 def _fl(seq):
     return [float(v) for v in seq]
 
@@ -173,32 +262,77 @@ def _vec(v):
     return (v.x, v.y, v.z)
 
 
+def _val(v):
+    return _vec(v) if isinstance(v, Vector3D) else v
+
+
+def _eval(ctx, w, f, p_raw, af):
+    """Call w at the point given in form `af`; returns (float64 point, result, recorded inner argument, passed objects)."""
+    pairs = [canon(af, v) for v in p_raw]
+    objs = [o for o, _ in pairs]
+    p = [c for _, c in pairs]
+    f.calls.clear()
+    with ctx.cut("call"):
+        got = w(*objs)
+    a = _one_call(ctx, f, "inner")
+    return p, got, a, objs
+
+
+def _again(ctx, w, f, first, name):
+    """(c) the instance evaluated once more at its first point: same value, same inner argument, bit for bit."""
+    if first is None:
+        return
+    p, got, a, objs = first
+    f.calls.clear()
+    with ctx.cut("call-again"):
+        got2 = w(*objs)
+    a2 = _one_call(ctx, f, "reuse")
+    ctx.label("reuse")
+    ctx.check(_val(got2) == _val(got) and a2 == a, "reuse",
+              lambda: "%s at %r: first call gave %r (inner %r), the same call after other points gives %r (inner %r)"
+                      % (name, p, _val(got), a, _val(got2), a2))
+
+
+def _attr_fn(ctx, w, attr, fobj, form):
+    """readonly function attribute: the very object for a raysect Function, a callable otherwise."""
+    with ctx.cut("attribute"):
+        g = getattr(w, attr)
+    if form == "raysect":
+        ctx.check(g is fobj, "attribute", lambda: ".%s is %r, not the Function object passed in" % (attr, g))
+    else:
+        ctx.check(callable(g), "attribute", lambda: ".%s is %r" % (attr, g))
+
+
 # ================================================================================================ iso
 def iso_strategy():
     return st.one_of(
-        st.builds(lambda p, f, g: {"cls": "IsoMapper2D", "pts": p, "f": f, "g": g}, points(2), coeffs(), coeffs()),
-        st.builds(lambda p, f, g: {"cls": "IsoMapper3D", "pts": p, "f": f, "g": g}, points(3), coeffs(), coeffs()))
+        st.builds(lambda p, f, g, fm: _with({"cls": "IsoMapper2D", "pts": p, "f": f, "g": g}, fm), points(2), coeffs(), coeffs(), forms()),
+        st.builds(lambda p, f, g, fm: _with({"cls": "IsoMapper3D", "pts": p, "f": f, "g": g}, fm), points(3), coeffs(), coeffs(), forms()))
 
 
 def run_iso(case, ctx):
     cls = case["cls"]
-    ctx.label(cls)
+    af, wf = case.get("af", "float"), case.get("wf", "object")
+    ctx.label(cls, "af:" + af)
+    dim = int(cls[-2])
     f, g = Rec(case["f"]), Rec(case["g"], rot=1)
+    fo, go = wrapped(ctx, wf, f, dim), wrapped(ctx, wf, g, 1)
     with ctx.cut("construct"):
-        w = getattr(M, cls)(f, g)
-    for p in case["pts"]:
-        p = _fl(p)
-        f.calls.clear()
+        w = getattr(M, cls)(fo, go)
+    _attr_fn(ctx, w, "function%dd" % dim, fo, wf)
+    _attr_fn(ctx, w, "function1d", go, wf)
+    first = None
+    for p_raw in case["pts"]:
         g.calls.clear()
-        with ctx.cut("call"):
-            got = w(*p)
-        fa = _one_call(ctx, f, "inner-field")
+        p, got, fa, objs = _eval(ctx, w, f, p_raw, af)
         _expect_args(ctx, fa, p, "inner-field", cls)
         ga = _one_call(ctx, g, "inner-1d")
         _expect_args(ctx, ga, [f.value(tuple(p))], "inner-1d", "g must receive f(%r)" % (p,))
         want = g.value((f.value(tuple(p)),))
         ctx.check(got == want, "value", lambda: "%s%r = %r, g(f(x)) = %r" % (cls, tuple(p), got, want))
         ctx.nt(_distinct(p))
+        first = first or (p, got, fa, objs)
+    _again(ctx, w, f, first, cls)
 
 
 # ================================================================================================ swizzle
@@ -209,16 +343,18 @@ _BAD_SHAPES = [{"shape": [0, 1, 3], "as": "tuple"}, {"shape": [-1, 0, 1], "as": 
 
 
 def swizzle_strategy():
+    sf = st.sampled_from(["int", "npint"])
     return st.one_of(
-        st.builds(lambda p, f: {"cls": "Swizzle2D", "pts": p, "f": f}, points(2), coeffs()),
-        st.builds(lambda p, f: {"cls": "Swizzle3D", "pts": p, "f": f}, points(3, 1, 2), coeffs()),
-        st.builds(lambda p, f: {"cls": "Swizzle3D", "pts": p, "f": f}, points(3, 1, 2), coeffs()),
+        st.builds(lambda p, f, fm: _with({"cls": "Swizzle2D", "pts": p, "f": f}, fm), points(2), coeffs(), forms()),
+        st.builds(lambda p, f, fm, s: _with({"cls": "Swizzle3D", "pts": p, "f": f, "sf": s}, fm), points(3, 1, 2), coeffs(), forms(), sf),
+        st.builds(lambda p, f, fm, s: _with({"cls": "Swizzle3D", "pts": p, "f": f, "sf": s}, fm), points(3, 1, 2), coeffs(), forms(), sf),
         st.builds(lambda p, f: {"cls": "Swizzle3D", "pts": p, "f": f, "bad": True}, points(3, 1, 1), coeffs()))
 
 
 def run_swizzle(case, ctx):
     """Swizzle3D: every case runs all 27 shapes (or all invalid selectors)."""
     cls = case["cls"]
+    af, wf, sf = case.get("af", "float"), case.get("wf", "object"), case.get("sf", "int")
     f = Rec(case["f"])
     if case.get("bad"):
         ctx.label("invalid")
@@ -227,22 +363,32 @@ def run_swizzle(case, ctx):
             shape = tuple(b["shape"]) if b["as"] == "tuple" else list(b["shape"])
             ctx.raises((ValueError, TypeError), "invalid-shape", M.Swizzle3D, f, shape)
         return
-    ctx.label(cls)
+    ctx.label(cls, "af:" + af)
+    dim = int(cls[-2])
+    fo = wrapped(ctx, wf, f, dim)
+    if cls == "Swizzle3D":
+        ctx.label("shape:" + sf)
     shapes = [[1, 0]] if cls == "Swizzle2D" else _SHAPES3
-    for shape in shapes:
+    for n_shape, shape in enumerate(shapes):
+        if sf == "npint":
+            shp = tuple([np.int64, np.int32, np.intp][k](i) for k, i in enumerate(shape))
+        else:
+            shp = tuple(shape)
         with ctx.cut("construct"):
-            w = M.Swizzle2D(f) if cls == "Swizzle2D" else M.Swizzle3D(f, tuple(shape))
-        for p in case["pts"]:
-            p = _fl(p)
-            f.calls.clear()
-            with ctx.cut("call"):
-                got = w(*p)
+            w = M.Swizzle2D(fo) if cls == "Swizzle2D" else M.Swizzle3D(fo, shp)
+        ctx.check(cls == "Swizzle2D" or (shp == tuple(shape) and len(shp) == 3), "caller-owned", "shape tuple changed")
+        if n_shape == 0:
+            _attr_fn(ctx, w, "function%dd" % dim, fo, wf)
+        first = None
+        for p_raw in case["pts"]:
+            p, got, fa, objs = _eval(ctx, w, f, p_raw, af)
             want_args = [p[i] for i in shape]
-            fa = _one_call(ctx, f, "inner")
             _expect_args(ctx, fa, want_args, "inner", "%s shape %r at %r" % (cls, shape, p))
             want = f.value(tuple(want_args))
             ctx.check(got == want, "value", lambda: "%s shape %r at %r = %r, expected %r" % (cls, shape, p, got, want))
             ctx.nt(_distinct(p))
+            first = first or (p, got, fa, objs)
+        _again(ctx, w, f, first, "%s%r" % (cls, shape))
 
 
 # ================================================================================================ slice
@@ -254,15 +400,17 @@ _BAD_AX3 = [3, -1, 7, "w", "", "xyz", "r", "2"]
 
 def slice_strategy():
     return st.one_of(
-        st.builds(lambda p, f, v, bad: {"cls": "Slice2D", "pts": p, "f": f, "value": v, "bad": bad},
-                  points(1), coeffs(), coord(), st.integers(0, 7).map(lambda i: i == 0)),
-        st.builds(lambda p, f, v, bad: {"cls": "Slice3D", "pts": p, "f": f, "value": v, "bad": bad},
-                  points(2), coeffs(), coord(), st.integers(0, 7).map(lambda i: i == 0)))
+        st.builds(lambda p, f, v, bad, fm: _with({"cls": "Slice2D", "pts": p, "f": f, "value": v, "bad": bad}, fm),
+                  points(1), coeffs(), coord(), st.integers(0, 7).map(lambda i: i == 0), forms()),
+        st.builds(lambda p, f, v, bad, fm: _with({"cls": "Slice3D", "pts": p, "f": f, "value": v, "bad": bad}, fm),
+                  points(2), coeffs(), coord(), st.integers(0, 7).map(lambda i: i == 0), forms()))
 
 
 def run_slice(case, ctx):
     """Every case runs all valid axis selectors of the class (or all invalid ones)."""
-    cls, value = case["cls"], float(case["value"])
+    cls = case["cls"]
+    af, cf, wf = case.get("af", "float"), case.get("cf", "float"), case.get("wf", "object")
+    vobj, value = canon(cf, case["value"])
     f = Rec(case["f"])
     if case.get("bad"):
         ctx.label("invalid")
@@ -270,7 +418,11 @@ def run_slice(case, ctx):
         for axis in (_BAD_AX2 if cls == "Slice2D" else _BAD_AX3):
             ctx.raises((ValueError,), "invalid-axis", getattr(M, cls), f, axis, value)
         return
-    ctx.label(cls)
+    ctx.label(cls, "af:" + af, "cf:" + cf)
+    if not _is_f32(value):
+        ctx.label("value-not-f32")
+    dim = 2 if cls == "Slice2D" else 3
+    fo = wrapped(ctx, wf, f, dim)
     for axis in (_AX2 if cls == "Slice2D" else _AX3):
         if isinstance(axis, str):
             ctx.label("str-axis")
@@ -278,19 +430,24 @@ def run_slice(case, ctx):
         else:
             ax = int(axis)
         with ctx.cut("construct"):
-            w = getattr(M, cls)(f, axis, value)
-        for p in case["pts"]:
-            p = _fl(p)
-            f.calls.clear()
-            with ctx.cut("call"):
-                got = w(*p)
+            w = getattr(M, cls)(fo, axis, vobj)
+        for _ in range(2):      # getters read twice
+            with ctx.cut("attribute"):
+                rv, ra = w.value, w.axis
+            ctx.check(type(rv) is float and rv == value and ra == ax, "attribute",
+                      lambda: "%s(f, %r, %r): .value = %r, .axis = %r" % (cls, axis, vobj, rv, ra))
+        first = None
+        for p_raw in case["pts"]:
+            p, got, fa, objs = _eval(ctx, w, f, p_raw, af)
             want_args = list(p)
             want_args.insert(ax, value)
-            fa = _one_call(ctx, f, "inner")
             _expect_args(ctx, fa, want_args, "inner", "%s axis %r value %r at %r" % (cls, axis, value, p))
             want = f.value(tuple(want_args))
             ctx.check(got == want, "value", lambda: "%s axis %r value %r at %r = %r, expected %r" % (cls, axis, value, p, got, want))
             ctx.nt(_distinct(want_args))
+            first = first or (p, got, fa, objs)
+        _again(ctx, w, f, first, "%s axis %r" % (cls, axis))
+        ctx.check(w.value == value and w.axis == ax, "attribute", "attributes changed by evaluation")
 
 
 # ================================================================================================ clamp
@@ -303,8 +460,21 @@ def _limits(dim):
         if not math.isfinite(hi):
             lo, hi = -1.0, 1.0
         return {"both": [lo, hi], "lo": [lo, None], "hi": [None, hi], "none": [None, None]}[kind]
-    one = st.builds(mk, coord(), coord(), st.sampled_from(["both", "both", "both", "lo", "hi", "none"]))
+    one = st.builds(mk, coord(), coord(), st.sampled_from(["both", "both", "both", "both", "lo", "hi", "none"]))
     return st.lists(one, min_size=dim, max_size=dim)
+
+
+def _canon_lims(cf, lims):
+    """Limits in constructor form cf -> (objects, float64 values); an axis whose limits collapse in that form stays float."""
+    objs, vals = [], []
+    for lo, hi in lims:
+        ol, vl = (None, None) if lo is None else canon(cf, lo)
+        oh, vh = (None, None) if hi is None else canon(cf, hi)
+        if vl is not None and vh is not None and not vl < vh and float(lo) < float(hi):
+            ol, vl, oh, vh = float(lo), float(lo), float(hi), float(hi)
+        objs.append([ol, oh])
+        vals.append([vl, vh])
+    return objs, vals
 
 
 @st.composite
@@ -312,6 +482,7 @@ def clamp_strategy(draw):
     dim = draw(st.integers(1, 3))
     kind = draw(st.sampled_from(["in", "in", "out", "invalid"]))
     co = draw(coeffs())
+    fm = draw(forms())
     if kind == "invalid":
         io = draw(st.sampled_from(["in", "out"]))
         a = draw(coord())
@@ -320,14 +491,16 @@ def clamp_strategy(draw):
         n_ax = dim if io == "in" else 1
         lims = [[-1.0, 1.0] for _ in range(n_ax)]
         lims[draw(st.integers(0, n_ax - 1))] = [lo, hi]
-        return {"kind": "invalid", "io": io, "dim": dim, "f": co, "lims": lims}
+        return _with({"kind": "invalid", "io": io, "dim": dim, "f": co, "lims": lims, "pos": draw(st.booleans())}, fm)
+    pos = draw(st.booleans())
     if kind == "in":
         lims = draw(_limits(dim))
+        _, clims = _canon_lims(fm["cf"], lims)
         pts = []
         for _ in range(draw(st.integers(1, 3))):
             p = []
             for ax in range(dim):
-                fin = [v for v in lims[ax] if v is not None]
+                fin = [v for v in clims[ax] if v is not None]
                 if fin and draw(st.integers(0, 3)) == 0:
                     b = draw(st.sampled_from(fin))           # exactly on a limit or its float neighbours
                     p.append(draw(st.sampled_from([b, math.nextafter(b, math.inf), math.nextafter(b, -math.inf)])))
@@ -338,27 +511,37 @@ def clamp_strategy(draw):
                 else:
                     p.append(draw(coord()))
             pts.append(p)
-        return {"kind": "in", "dim": dim, "f": co, "lims": lims, "pts": pts}
+        return _with({"kind": "in", "dim": dim, "f": co, "lims": lims, "pts": pts, "pos": pos}, fm)
     # output clamp: limits in the value range of the recording function (|value| <= ~1e6)
-    a, b = draw(st.floats(-1e3, 1e3)), draw(st.floats(-1e3, 1e3))
+    lv = st.one_of(st.floats(-1e3, 1e3), st.sampled_from([0.0, 0.1, -0.1, 2.2, -2.2, 1234.5678, -1234.5678, 1.0, -1.0]))
+    a, b = draw(lv), draw(lv)
     lo, hi = (a, b) if a < b else (b, a)
     if lo == hi:
         hi = lo + 1.0
-    lim = draw(st.sampled_from([[lo, hi], [lo, None], [None, hi], [None, None]]))
-    return {"kind": "out", "dim": dim, "f": co, "lims": [lim], "pts": draw(points(dim))}
-
-
-def _clamp_kwargs(lims, names):
-    kw = {}
-    for (lo, hi), (nlo, nhi) in zip(lims, names):
-        if lo is not None:
-            kw[nlo] = float(lo)
-        if hi is not None:
-            kw[nhi] = float(hi)
-    return kw
+    lim = draw(st.sampled_from([[lo, hi], [lo, hi], [lo, None], [None, hi], [None, None]]))
+    return _with({"kind": "out", "dim": dim, "f": co, "lims": [lim], "pts": draw(points(dim)), "pos": pos}, fm)
 
 
 _IN_NAMES = [("xmin", "xmax"), ("ymin", "ymax"), ("zmin", "zmax")]
+
+
+def _clamp_args(ctx, objs, names, pos):
+    """positional arguments as far as the limits are given without a gap (when pos), the rest by keyword."""
+    flat = [(n, o) for (ol, oh), (nl, nh) in zip(objs, names) for n, o in ((nl, ol), (nh, oh))]
+    args, kw = [], {}
+    lead = True
+    for n, o in flat:
+        if o is None:
+            lead = False
+            ctx.label("default-limit")
+            continue
+        if pos and lead:
+            args.append(o)
+            ctx.label("positional")
+        else:
+            kw[n] = o
+            ctx.label("keyword")
+    return args, kw
 
 
 def _clampv(v, lo, hi):
@@ -371,37 +554,32 @@ def _clampv(v, lo, hi):
 
 def run_clamp(case, ctx):
     dim, kind = int(case["dim"]), case["kind"]
+    af, cf, wf = case.get("af", "float"), case.get("cf", "float"), case.get("wf", "object")
+    pos = bool(case.get("pos"))
     f = Rec(case["f"])
-    lims = [[None if v is None else float(v) for v in l] for l in case["lims"]]
+    objs, lims = _canon_lims(cf, case["lims"])
+    io = case["io"] if kind == "invalid" else kind
+    name = ("ClampInput%dD" if io == "in" else "ClampOutput%dD") % dim
+    names = _IN_NAMES if io == "in" else [("min", "max")]
     if kind == "invalid":
         ctx.label("invalid")
         ctx.nt()
-        if case["io"] == "in":
-            cls = getattr(M, "ClampInput%dD" % dim)
-            kw = _clamp_kwargs(lims, _IN_NAMES)
-        else:
-            cls = getattr(M, "ClampOutput%dD" % dim)
-            kw = _clamp_kwargs(lims, [("min", "max")])
-        ctx.raises((ValueError,), "invalid-limits", lambda: cls(f, **kw))
+        args, kw = _clamp_args(ctx, objs, names, pos)
+        ctx.raises((ValueError,), "invalid-limits", lambda: getattr(M, name)(f, *args, **kw))
         return
-    if kind == "in":
-        name = "ClampInput%dD" % dim
-        kw = _clamp_kwargs(lims, _IN_NAMES)
-    else:
-        name = "ClampOutput%dD" % dim
-        kw = _clamp_kwargs(lims, [("min", "max")])
-    ctx.label(name)
+    ctx.label(name, "af:" + af, "cf:" + cf)
+    if any(v is not None and not _is_f32(v) for l in lims for v in l):
+        ctx.label("limit-not-f32")
+    fo = wrapped(ctx, wf, f, dim)
+    args, kw = _clamp_args(ctx, objs, names, pos)
     with ctx.cut("construct"):
-        w = getattr(M, name)(f, **kw)
-    for p in case["pts"]:
-        p = _fl(p)
-        f.calls.clear()
-        with ctx.cut("call"):
-            got = w(*p)
-        fa = _one_call(ctx, f, "inner")
+        w = getattr(M, name)(fo, *args, **kw)
+    first = None
+    for p_raw in case["pts"]:
+        p, got, fa, pobjs = _eval(ctx, w, f, p_raw, af)
         if kind == "in":
             want_args = [_clampv(p[i], lims[i][0], lims[i][1]) for i in range(dim)]
-            _expect_args(ctx, fa, want_args, "inner", "%s %r at %r" % (name, kw, p))
+            _expect_args(ctx, fa, want_args, "inner", "%s %r %r at %r" % (name, args, kw, p))
             want = f.value(tuple(want_args))
             clamped = any(w_ != v for w_, v in zip(want_args, p))
             on = any(v in [b for b in lims[i] if b is not None] for i, v in enumerate(p))
@@ -411,13 +589,15 @@ def run_clamp(case, ctx):
                 ctx.label("in:on-limit")
             ctx.nt(clamped or on)
         else:
-            _expect_args(ctx, fa, p, "inner", "%s %r at %r" % (name, kw, p))
+            _expect_args(ctx, fa, p, "inner", "%s %r %r at %r" % (name, args, kw, p))
             raw = f.value(tuple(p))
             want = _clampv(raw, lims[0][0], lims[0][1])
             if want != raw:
                 ctx.label("out:clamped")
             ctx.nt(want != raw)
-        ctx.check(got == want, "value", lambda: "%s %r at %r = %r, expected %r" % (name, kw, p, got, want))
+        ctx.check(got == want, "value", lambda: "%s %r %r at %r = %r, expected %r" % (name, args, kw, p, got, want))
+        first = first or (p, got, fa, pobjs)
+    _again(ctx, w, f, first, name)
 
 
 # ================================================================================================ cyl
@@ -436,14 +616,21 @@ def _xy():
             else:
                 y = math.copysign(fb, y)
         return [x, y]
-    return st.builds(fix, c, c, st.floats(R_LO, 1.0))
+    general = st.builds(fix, c, c, st.floats(R_LO, 1.0))
+    # the branch cut of atan2 and the axes, on purpose: y = +-0.0 with x < 0, x = +-0.0, the origin with all four zero signs
+    neg = st.one_of(st.floats(-R_HI, -R_LO), st.sampled_from([-1.0, -0.1, -2.2, -1e-140, -1e150, -3.0]), st.floats(-10.0, -0.01))
+    zero = st.sampled_from([0.0, -0.0])
+    cut = st.builds(lambda x, y: [x, y], neg, zero)
+    yaxis = st.builds(lambda x, y, s: [x, s * y], zero, neg, st.sampled_from([-1.0, 1.0]))
+    origin = st.builds(lambda x, y: [x, y], zero, zero)
+    return st.one_of(general, general, general, cut, yaxis, origin)
 
 
 def cyl_strategy():
     pt = st.builds(lambda xy, z: xy + [z], _xy(), coord())
-    return st.builds(lambda c, p, f: {"cls": c, "pts": p, "f": f},
+    return st.builds(lambda c, p, f, fm: _with({"cls": c, "pts": p, "f": f}, fm),
                      st.sampled_from(["AxisymmetricMapper", "VectorAxisymmetricMapper", "CylindricalTransform", "VectorCylindricalTransform"]),
-                     st.lists(pt, min_size=1, max_size=3), coeffs())
+                     st.lists(pt, min_size=1, max_size=3), coeffs(), forms())
 
 
 def _rotz(v, phi):
@@ -453,18 +640,33 @@ def _rotz(v, phi):
 
 def run_cyl(case, ctx):
     cls = case["cls"]
-    ctx.label(cls)
+    af, wf = case.get("af", "float"), case.get("wf", "object")
+    ctx.label(cls, "af:" + af)
     vector = cls.startswith("Vector")
     three = "Cylindrical" in cls
     f = VRec(case["f"]) if vector else Rec(case["f"])
+    fo = wrapped(ctx, wf, f, 3 if three else 2)
     with ctx.cut("construct"):
-        w = getattr(M, cls)(f)
-    for p in case["pts"]:
-        x, y, z = _fl(p)
-        f.calls.clear()
-        with ctx.cut("call"):
-            got = w(x, y, z)
-        a = _one_call(ctx, f, "inner")
+        w = getattr(M, cls)(fo)
+    _attr_fn(ctx, w, "function3d" if three else "function2d", fo, wf)
+    first = None
+    for p_raw in case["pts"]:
+        p_raw = _fl(p_raw)
+        if af == "int":
+            # an int cannot carry the sign of zero and truncation must not leave the accurate range of sqrt(x*x+y*y)
+            pairs = [(v, v) if (v == 0 or abs(v) < 1.0) else canon("int", v) for v in p_raw]
+            objs = [o for o, _ in pairs]
+            p = [c for _, c in pairs]
+            f.calls.clear()
+            with ctx.cut("call"):
+                got = w(*objs)
+            a = _one_call(ctx, f, "inner")
+        else:
+            p, got, a, objs = _eval(ctx, w, f, p_raw, af)
+        x, y, z = p
+        if 0.0 < max(abs(x), abs(y)) < R_LO:      # float32 flush of a tiny value: outside the accurate range, not judged
+            ctx.label("out-of-range-after-form")
+            continue
         ctx.check(len(a) == (3 if three else 2), "inner", lambda: "inner called with %r" % (a,))
         r_ref = math.hypot(x, y)
         phi_ref = math.atan2(y, x)
@@ -490,18 +692,20 @@ def run_cyl(case, ctx):
         if origin:
             ctx.label("origin")
         if cut:
-            ctx.label("branch-cut")
+            ctx.label("branch-cut", "%s:y=%s0,x<0" % (cls, "-" if math.copysign(1.0, y) < 0 else "+"))
         if axis:
             ctx.label("on-axis")
         big = any(v != 0 and not (1e-12 <= abs(v) <= 1e15) for v in (x, y, z))
         if big:
             ctx.label("tiny-or-huge")
         ctx.nt(origin or axis or not (x > 0 and y > 0) or big)
+        first = first or (p, got, a, objs)
+    _again(ctx, w, f, first, cls)
 
 
 # ================================================================================================ periodic
 _PERIODS = [1.0, 2 * math.pi, 360.0, 0.1, 0.75, 2.0, 1e-3, 1e3, 3.0, 5e-324, 2.2250738585072014e-308, 1e-300, 1e300,
-            1.7976931348623157e308, 1 / 3]
+            1.7976931348623157e308, 1 / 3, 2.2, 1234.5678, 1e39, 1e-46, 0.01]
 
 
 def _period():
@@ -509,8 +713,16 @@ def _period():
                      st.floats(1e-3, 1e3))
 
 
+def _canon_period(cf, p):
+    """period in constructor form (positive periods stay positive: a form that would round it to 0 is not used)."""
+    o, v = canon(cf, p)
+    if p > 0 and not v > 0:
+        return float(p), float(p)
+    return o, v
+
+
 def in_defect_class(x, p):
-    """x < 0 whose float remainder r = fmod(x, p) is so small that fl(r + p) == p (open finding)."""
+    """x < 0 whose float remainder r = fmod(x, p) is so small that fl(r + p) == p (finding C13-remainder-returns-period)."""
     if p <= 0:
         return False
     r = math.fmod(x, p)
@@ -550,6 +762,7 @@ def periodic_strategy(draw):
     cls = draw(st.sampled_from(["P1", "P2", "P3", "VP1", "VP2", "VP3"]))
     dim = int(cls[-1])
     co = draw(coeffs())
+    fm = draw(forms())
     if draw(st.integers(0, 11)) == 0:
         # rejected periods: negative anywhere, or zero for the 1-D classes
         periods = [draw(st.one_of(st.just(0.0), _period())) if dim > 1 else 1.0 for _ in range(dim)]
@@ -558,7 +771,8 @@ def periodic_strategy(draw):
             bad = draw(st.sampled_from([0.0, -0.0]))
         periods[draw(st.integers(0, dim - 1))] = bad
         return {"cls": cls, "periods": periods, "f": co, "invalid": True}
-    periods = [draw(_period()) if (dim == 1 or draw(st.integers(0, 4)) > 0) else 0.0 for _ in range(dim)]
+    # periods are stored as the float64 value of the form they are passed in, so that x = k*period refers to the real period
+    periods = [_canon_period(fm["cf"], draw(_period()))[1] if (dim == 1 or draw(st.integers(0, 4)) > 0) else 0.0 for _ in range(dim)]
     pts, excl = [], 0
     for _ in range(draw(st.integers(1, 3))):
         pt = []
@@ -569,7 +783,7 @@ def periodic_strategy(draw):
                 excl += 1
             pt.append(x)
         pts.append(pt)
-    case = {"cls": cls, "periods": periods, "f": co, "pts": pts}
+    case = _with({"cls": cls, "periods": periods, "f": co, "pts": pts}, fm)
     if excl:
         case["excluded_known"] = excl
     return case
@@ -579,29 +793,44 @@ _PCLS = {"P1": "PeriodicTransform1D", "P2": "PeriodicTransform2D", "P3": "Period
          "VP1": "VectorPeriodicTransform1D", "VP2": "VectorPeriodicTransform2D", "VP3": "VectorPeriodicTransform3D"}
 
 
+def _read_periods(ctx, w, dim, periods, name):
+    """Readable period attributes (PeriodicTransform2D has none) report exactly the periods passed in."""
+    attrs = ["period"] if dim == 1 else ["period_x", "period_y", "period_z"][:dim]
+    for at, per in zip(attrs, periods):
+        if hasattr(w, at):
+            ctx.label("attr-read")
+            for _ in range(2):
+                got = getattr(w, at)
+                ctx.check(type(got) is float and got == per, "attribute", lambda: "%s.%s = %r, constructed with %r" % (name, at, got, per))
+
+
 def run_periodic(case, ctx):
     cls = case["cls"]
     name = _PCLS[cls]
     vector = cls.startswith("V")
     dim = int(cls[-1])
-    periods = _fl(case["periods"])
+    af, cf, wf = case.get("af", "float"), case.get("cf", "float"), case.get("wf", "object")
     f = VRec(case["f"]) if vector else Rec(case["f"])
     if case.get("invalid"):
         ctx.label("invalid")
         ctx.nt()
-        ctx.raises((ValueError,), "invalid-period", getattr(M, name), f, *periods)
+        ctx.raises((ValueError,), "invalid-period", getattr(M, name), f, *_fl(case["periods"]))
         return
-    ctx.label(cls)
+    pp = [_canon_period(cf, p) for p in case["periods"]]
+    pobjs, periods = [o for o, _ in pp], [v for _, v in pp]
+    ctx.label(cls, "af:" + af, "cf:" + cf)
+    if any(per != 0 and not _is_f32(per) for per in periods):
+        ctx.label("period-not-f32")
     if case.get("excluded_known"):
         ctx.label("excluded_known")
+    fo = wrapped(ctx, wf, f, dim)
     with ctx.cut("construct"):
-        w = getattr(M, name)(f, *periods)
-    for p in case["pts"]:
-        p = _fl(p)
-        f.calls.clear()
-        with ctx.cut("call"):
-            got = w(*p)
-        a = _one_call(ctx, f, "inner")
+        w = getattr(M, name)(fo, *pobjs)
+    _attr_fn(ctx, w, "function%dd" % dim, fo, wf)
+    _read_periods(ctx, w, dim, periods, name)
+    first = None
+    for p_raw in case["pts"]:
+        p, got, a, objs = _eval(ctx, w, f, p_raw, af)
         ctx.check(len(a) == dim and all(type(v) is float for v in a), "inner", lambda: "inner called with %r" % (a,))
         for ax in range(dim):
             x, per, inner = p[ax], periods[ax], a[ax]
@@ -636,12 +865,14 @@ def run_periodic(case, ctx):
                 ctx.label("huge")
                 edge = True
             ctx.nt(edge)
+        want = f.value(a)
         if vector:
-            want = f.value(a)
             ctx.check(_vec(got) == tuple(want), "vector", lambda: "%s at %r = %r, f(inner) = %r" % (name, p, _vec(got), want))
         else:
-            want = f.value(a)
             ctx.check(got == want, "value", lambda: "%s at %r = %r, f(inner) = %r" % (name, p, got, want))
+        first = first or (p, got, a, objs)
+    _again(ctx, w, f, first, name)
+    _read_periods(ctx, w, dim, periods, name)
 
 
 # ================================================================================================ mask
@@ -651,22 +882,42 @@ _TEMPLATES = {
     "zigzag": [[0, 0], [1, 1.5], [2, 0], [3, 1.5], [4, 0], [4, 1], [3, 2.5], [2, 1], [1, 2.5], [0, 1]],
     "spiral": [[0, 0], [5, 0], [5, 5], [1, 5], [1, 2], [3, 2], [3, 3], [2, 3], [2, 4], [4, 4], [4, 1], [0, 1]],
     "comb": [[0, 0], [7, 0], [7, 3], [6, 3], [6, 1], [5, 1], [5, 3], [4, 3], [4, 1], [3, 1], [3, 3], [2, 3], [2, 1], [1, 1], [1, 3], [0, 3]],
+    # small integer polygons: triangle, square, dart (concave quadrilateral), arrow
+    "tri": [[0, 0], [4, 0], [1, 3]],
+    "square": [[0, 0], [2, 0], [2, 2], [0, 2]],
+    "dart": [[0, 0], [4, 1], [0, 3], [1, 1]],
+    "dart2": [[0, 0], [2, 1], [4, 0], [2, 5]],
 }
+_VFORMS = ["list", "tuple", "ndarray", "f32", "int", "fortran", "strided"]
 
 
 @st.composite
 def mask_strategy(draw):
+    vf = draw(st.sampled_from(_VFORMS))
     cx, cy = draw(st.floats(-10, 10)), draw(st.floats(-10, 10))
     scale = 10.0 ** draw(st.floats(-3, 3))
     th0 = draw(st.floats(0, 2 * math.pi))
-    kind = draw(st.sampled_from(["star", "star", "star", "convex", "template"]))
-    if kind == "template":
+    kind = draw(st.sampled_from(["star", "star", "small", "small", "dart", "convex", "template"]))
+    if vf == "int":
+        # integer vertices: an integer template, shifted and scaled by integers
+        name = draw(st.sampled_from(sorted(_TEMPLATES)))
+        k, ox, oy = draw(st.integers(1, 1000)), draw(st.integers(-1000, 1000)), draw(st.integers(-1000, 1000))
+        verts = [[float(round(2 * x) * k + ox), float(round(2 * y) * k + oy)] for x, y in _TEMPLATES[name]]
+    elif kind == "template":
         name = draw(st.sampled_from(sorted(_TEMPLATES)))
         base = _TEMPLATES[name]
         c, s = math.cos(th0), math.sin(th0)
         verts = [[cx + scale * (c * x - s * y), cy + scale * (s * x + c * y)] for x, y in base]
+    elif kind == "dart":
+        # three outer vertices around the centre and a fourth one strictly inside their triangle: concave quadrilateral
+        g1, g2 = draw(st.floats(1.6, 2.4)), draw(st.floats(1.6, 2.4))
+        g3 = 2 * math.pi - g1 - g2
+        r_in = draw(st.floats(0.1, 0.8)) * math.cos(g3 / 2)
+        ang = [th0, th0 + g1, th0 + g1 + g2, th0 + g1 + g2 + g3 / 2]
+        rad = [1.0, draw(st.floats(0.6, 1.0)), draw(st.floats(0.6, 1.0)), 0.6 * r_in]
+        verts = [[cx + scale * r * math.cos(a), cy + scale * r * math.sin(a)] for r, a in zip(rad, ang)]
     else:
-        n = draw(st.integers(3, 12))
+        n = draw(st.integers(3, 4)) if kind == "small" else draw(st.integers(3, 12))
         gaps = [draw(st.floats(0.25, 1.0)) for _ in range(n)]
         tot = sum(gaps)
         radii = [1.0 if kind == "convex" else draw(st.floats(0.25, 1.0)) for _ in range(n)]
@@ -674,6 +925,8 @@ def mask_strategy(draw):
         for i in range(n):
             verts.append([cx + scale * radii[i] * math.cos(th), cy + scale * radii[i] * math.sin(th)])
             th += 2 * math.pi * gaps[i] / tot
+    if vf == "f32":
+        verts = [[float(np.float32(x)), float(np.float32(y))] for x, y in verts]
     if draw(st.booleans()):
         verts.reverse()
     k = draw(st.integers(0, len(verts) - 1))
@@ -685,7 +938,7 @@ def mask_strategy(draw):
         st.tuples(st.just("chord"), st.integers(0, 63), st.integers(0, 63), st.floats(0.01, 0.99),
                   st.sampled_from([0.0, 0.0, 1e-6, -1e-6, 1e-3, -1e-3])),
     ).map(list), min_size=4, max_size=10))
-    case = {"verts": verts, "probes": probes, "rot": k}
+    case = {"verts": verts, "probes": probes, "rot": k, "vf": vf, "mutate": draw(st.booleans())}
     if EXCLUDE_DIAG:
         # open finding: points exactly on a chord joining two vertices (a possible triangulation diagonal) are excluded
         # by construction - they are moved 1e-6*size off the chord
@@ -733,26 +986,36 @@ def _near_chord(px, py, verts, tol):
     return False
 
 
-def run_mask(case, ctx):
-    if case.get("excluded_known"):
-        ctx.label("excluded_known")
-    verts = [_fl(v) for v in case["verts"]]
+def _container(form, verts):
+    """vertex / point list in container form; returns (object, snapshot function -> comparable copy)."""
+    if form == "tuple":
+        return tuple(tuple(v) for v in verts)
+    if form == "list":
+        return [list(v) for v in verts]
+    if form == "f32":
+        return np.array(verts, dtype=np.float32)
+    if form == "int":
+        return np.array(verts, dtype=np.int64)
+    a = np.array(verts, dtype=np.float64)
+    if form == "fortran":
+        return np.asfortranarray(a)
+    if form == "strided":
+        big = np.full((2 * a.shape[0], 2 * a.shape[1]), 7.25)
+        big[::2, ::2] = a
+        return big[::2, ::2]
+    return a
+
+
+def _snapshot(obj):
+    if isinstance(obj, np.ndarray):
+        return (obj.dtype.str, obj.shape, obj.tobytes())
+    return repr(obj)
+
+
+def _probe_points(case, verts, size, bbox, ctx):
     n = len(verts)
-    xs, ys = [v[0] for v in verts], [v[1] for v in verts]
-    x0, x1, y0, y1 = min(xs), max(xs), min(ys), max(ys)
-    size = max(x1 - x0, y1 - y0)
-    area2 = sum(verts[i][0] * verts[(i + 1) % n][1] - verts[(i + 1) % n][0] * verts[i][1] for i in range(n))
-    ccw = area2 > 0
-    crosses = []
-    for i in range(n):
-        a, b, c = verts[i - 1], verts[i], verts[(i + 1) % n]
-        crosses.append((b[0] - a[0]) * (c[1] - b[1]) - (b[1] - a[1]) * (c[0] - b[0]))
-    convex = all(c > 0 for c in crosses) or all(c < 0 for c in crosses)
-    ctx.label("convex" if convex else "concave", "ccw" if ccw else "cw", "n=%d" % n)
-    ctx.nt((not convex) or (not ccw) or int(case.get("rot", 0)) != 0)
-    with ctx.cut("construct"):
-        w = M.PolygonMask2D(verts)
-    fverts = [(Fraction(v[0]), Fraction(v[1])) for v in verts]
+    x0, x1, y0, y1 = bbox
+    out = []
     for pr in case["probes"]:
         kind = pr[0]
         if kind == "box":
@@ -774,7 +1037,7 @@ def run_mask(case, ctx):
             t = float(pr[3])
             ex, ey = b[0] - a[0], b[1] - a[1]
             L = math.hypot(ex, ey) or 1.0
-            d = float(pr[4]) * size
+            d = float(pr[4]) * size if len(pr) > 4 else 0.0
             px, py = a[0] + t * ex - d * ey / L, a[1] + t * ey + d * ex / L
             if d == 0:
                 ctx.label("on-chord")
@@ -785,24 +1048,84 @@ def run_mask(case, ctx):
         if not dist > 1e-9 * size:
             ctx.label("near-edge-skipped")
             continue
-        want = 1.0 if _inside_exact(fverts, Fraction(px), Fraction(py)) else 0.0
-        ctx.label("inside" if want else "outside")
-        with ctx.cut("call"):
-            got = w(px, py)
-        ctx.check(got == want, "mask",
-                  lambda: "PolygonMask2D(%r)(%r, %r) = %r, point-in-polygon = %r (distance to boundary %.3g, size %.3g)"
-                          % (verts, px, py, got, want, dist, size))
+        out.append((px, py, dist))
+    return out
+
+
+def run_mask(case, ctx):
+    if case.get("excluded_known"):
+        ctx.label("excluded_known")
+    base = [_fl(v) for v in case["verts"]]
+    vf = case.get("vf", "list")
+    n = len(base)
+    xs, ys = [v[0] for v in base], [v[1] for v in base]
+    bbox = (min(xs), max(xs), min(ys), max(ys))
+    size = max(bbox[1] - bbox[0], bbox[3] - bbox[2])
+    pts = _probe_points(case, base, size, bbox, ctx)
+    fbase = [(Fraction(v[0]), Fraction(v[1])) for v in base]
+    wants = [1.0 if _inside_exact(fbase, Fraction(px), Fraction(py)) else 0.0 for px, py, _ in pts]
+    crosses = []
+    for i in range(n):
+        a, b, c = base[i - 1], base[i], base[(i + 1) % n]
+        crosses.append((b[0] - a[0]) * (c[1] - b[1]) - (b[1] - a[1]) * (c[0] - b[0]))
+    convex = all(c > 0 for c in crosses) or all(c < 0 for c in crosses)
+    ctx.label("convex" if convex else "concave", "n=%d" % n, "form:" + vf)
+    if n == 4 and not convex:
+        ctx.label("dart")
+    # polygons with <= 4 vertices: every starting vertex, both orientations; larger ones: as drawn
+    if n <= 4:
+        ctx.label("allrot")
+        variants = [(base[k:] + base[:k])[::s] for k in range(n) for s in (1, -1)]
+    else:
+        variants = [base]
+    for vi, verts in enumerate(variants):
+        area2 = sum(verts[i][0] * verts[(i + 1) % n][1] - verts[(i + 1) % n][0] * verts[i][1] for i in range(n))
+        ccw = area2 > 0
+        ctx.label("ccw" if ccw else "cw")
+        ctx.nt((not convex) or (not ccw) or int(case.get("rot", 0)) != 0 or vi > 0)
+        obj = _container(vf, verts)
+        before = _snapshot(obj)
+        with ctx.cut("construct"):
+            w = M.PolygonMask2D(obj)
+        ctx.check(_snapshot(obj) == before, "caller-owned", lambda: "PolygonMask2D modified the vertex container it was given (%s)" % vf)
+
+        def evaluate(order, what):
+            for i in order:
+                px, py, dist = pts[i]
+                with ctx.cut("call"):
+                    got = w(px, py)
+                ctx.check(got == wants[i], what,
+                          lambda: "PolygonMask2D(%r [%s])(%r, %r) = %r, point-in-polygon = %r (distance to boundary %.3g, size %.3g)"
+                                  % (verts, vf, px, py, got, wants[i], dist, size))
+        idx = list(range(len(pts)))
+        evaluate(idx, "mask")
+        # (c) re-use: backwards, and every point twice in a row (the mesh caches its last look-up)
+        evaluate(idx[::-1], "mask-reuse")
+        evaluate([i for i in idx for _ in (0, 1)], "mask-reuse")
+        # (d) the caller overwrites its container after construction: the mask must not change
+        if case.get("mutate") and vf != "tuple":
+            ctx.label("caller-mutates")
+            if isinstance(obj, np.ndarray):
+                obj[...] = obj[::-1].copy() * 3 + 1
+            else:
+                for row in obj:
+                    row[0], row[1] = row[1] * 3.0 + 1.0, -row[0]
+                obj.reverse()
+            evaluate(idx, "mask-after-caller-mutation")
+    for wv in wants:
+        ctx.label("inside" if wv else "outside")
 
 
 # ================================================================================================ samplers
 S_MAX = 8e307
 
 
-def _srange():
+def _srange(maxn=5):
     c = st.one_of(st.floats(-S_MAX, S_MAX), st.sampled_from([v for v in _SPECIAL if abs(v) <= S_MAX]),
                   st.floats(-10.0, 10.0), st.floats(-10.0, 10.0).map(lambda v: float(round(v))))
+    n = st.integers(1, 5) if maxn <= 5 else st.one_of(st.integers(1, 5), st.integers(1, maxn))
     return st.builds(lambda a, b, same, n: [min(a, b), min(a, b) if same else max(a, b), n], c, c,
-                     st.integers(0, 7).map(lambda v: v == 0), st.integers(1, 5))
+                     st.integers(0, 7).map(lambda v: v == 0), n)
 
 
 _SCAL = {"sample1d": 1, "sample2d": 2, "sample3d": 3}
@@ -812,15 +1135,18 @@ _GRID = {"sample2d_grid": 2, "sample3d_grid": 3, "samplevector2d_grid": 2, "samp
 _ALLFN = {}
 for _d in (_SCAL, _VEC, _PTS, _GRID):
     _ALLFN.update(_d)
+_AFORMS = ["list", "tuple", "ndarray", "f32", "int", "fortran", "strided"]
 
 
 @st.composite
 def samplers_strategy(draw):
     fn = draw(st.sampled_from(sorted(_ALLFN)))
     dim = _ALLFN[fn]
-    case = {"fn": fn, "f": draw(coeffs())}
+    case = {"fn": fn, "f": draw(coeffs()), "wf": draw(st.sampled_from(["object", "function", "raysect"]))}
     if fn in _SCAL or fn in _VEC:
-        rs = [draw(_srange()) for _ in range(dim)]
+        rs = [draw(_srange(33 if dim == 1 else 5)) for _ in range(dim)]
+        case["rf"] = draw(st.sampled_from(["float", "float", "int", "np32", "np64"]))
+        case["nf"] = draw(st.sampled_from(["int", "int", "npint"]))
         if draw(st.integers(0, 9)) == 0:
             ax = draw(st.integers(0, dim - 1))
             how = draw(st.sampled_from(["n=0", "n<0", "min>max", "len"]))
@@ -834,13 +1160,18 @@ def samplers_strategy(draw):
             else:
                 rs[ax] = rs[ax][:2] if draw(st.booleans()) else rs[ax] + [1]
             case["invalid"] = how
+            case["rf"] = "float"
         case["ranges"] = rs
     elif fn in _PTS:
         case["points"] = draw(points(dim, 1, 6))
-        case["as"] = draw(st.sampled_from(["list", "ndarray", "fortran", "tuple"]))
+        if draw(st.integers(0, 3)) == 0:                       # equal neighbouring points
+            case["points"].append(list(case["points"][-1]))
+        case["as"] = draw(st.sampled_from(_AFORMS))
     else:
         case["axes"] = [draw(st.lists(coord(), min_size=1, max_size=4)) for _ in range(dim)]
-        case["as"] = draw(st.sampled_from(["list", "ndarray", "strided", "tuple"]))
+        if draw(st.integers(0, 3)) == 0:                       # equal neighbouring coordinates
+            case["axes"][0].append(case["axes"][0][-1])
+        case["as"] = draw(st.sampled_from(_AFORMS))
     return case
 
 
@@ -861,13 +1192,13 @@ def _check_linspace(ctx, got, lo, hi, n, axis):
     return g
 
 
-def _grid_check(ctx, fn, f, vector, axes, v, before):
+def _grid_check(ctx, fn, f, vector, axes, v):
     """v[i,j,k] == f(x_i, y_j, z_k) exactly; every grid point was evaluated."""
     shape = tuple(len(a) for a in axes)
     want_shape = shape + ((3,) if vector else ())
-    ctx.check(isinstance(v, np.ndarray) and v.shape == want_shape, "shape",
+    ctx.check(isinstance(v, np.ndarray) and v.shape == want_shape and v.dtype == np.float64, "shape",
               lambda: "%s: result shape %r, expected %r" % (fn, getattr(v, "shape", None), want_shape))
-    calls = f.calls[before:]
+    calls = list(f.calls)
     want_calls = []
     for idx in np.ndindex(*shape):
         args = tuple(axes[d][idx[d]] for d in range(len(axes)))
@@ -884,18 +1215,41 @@ def _grid_check(ctx, fn, f, vector, axes, v, before):
 
 
 def _arr(kind, data, dim2=False):
+    """(object to pass, float64 values it stands for)."""
     if kind == "list":
-        return data
+        return ([list(r) for r in data] if dim2 else list(data)), data
     if kind == "tuple":
-        return tuple(tuple(r) for r in data) if dim2 else tuple(data)
-    a = np.array(data, dtype=float)
+        return (tuple(tuple(r) for r in data) if dim2 else tuple(data)), data
+    if kind == "f32":
+        a = np.array(data, dtype=np.float64)
+        a = np.where(np.abs(a) <= 3.4028234663852886e38, a, 1.0).astype(np.float32)
+        return a, a.astype(np.float64).tolist()
+    if kind == "int":
+        a = np.array(data, dtype=np.float64)
+        a = np.where(np.abs(a) < 2.0 ** 53, a, 1.0).astype(np.int64)
+        return a, a.astype(np.float64).tolist()
+    a = np.array(data, dtype=np.float64)
     if kind == "fortran":
-        return np.asfortranarray(a)
+        return np.asfortranarray(a), data
     if kind == "strided":
-        b = np.zeros(2 * len(data))
+        if dim2:
+            big = np.full((2 * a.shape[0], 2 * a.shape[1]), 7.25)
+            big[::2, ::2] = a
+            return big[::2, ::2], data
+        b = np.full(2 * len(data), 7.25)
         b[::2] = a
-        return b[::2]
-    return a
+        return b[::2], data
+    return a, data
+
+
+def _same_result(ctx, fn, r1, r2, what):
+    """Two returned tuples/arrays: equal bit for bit and not sharing memory."""
+    a1 = r1 if isinstance(r1, tuple) else (r1,)
+    a2 = r2 if isinstance(r2, tuple) else (r2,)
+    ctx.check(len(a1) == len(a2), what, "%s: different number of results" % fn)
+    for x, y in zip(a1, a2):
+        ctx.check(x.shape == y.shape and x.tobytes() == y.tobytes(), what, lambda: "%s: the second call returns %r, the first %r" % (fn, y, x))
+        ctx.check(not np.shares_memory(x, y), what, "%s: arrays returned by two calls share memory" % fn)
 
 
 def run_samplers(case, ctx):
@@ -905,33 +1259,47 @@ def run_samplers(case, ctx):
     f = VRec(case["f"]) if vector else Rec(case["f"])
     func = getattr(M, fn)
     ctx.label(fn)
+    if case.get("invalid"):
+        rs = [tuple([float(r[0]), float(r[1])] + [int(v) for v in r[2:]]) for r in case["ranges"]]
+        ctx.label("invalid")
+        ctx.nt()
+        ctx.raises((ValueError,), "invalid-range", func, f, *rs)
+        return
+    fo = wrapped(ctx, case.get("wf", "object"), f, dim)
     if "ranges" in case:
-        rs = [tuple([float(r[0]), float(r[1])] + [int(v) for v in r[2:]]) if len(r) >= 2 else tuple(r) for r in case["ranges"]]
-        if case.get("invalid"):
-            ctx.label("invalid")
-            ctx.nt()
-            ctx.raises((ValueError,), "invalid-range", func, f, *rs)
-            return
+        rf, nf = case.get("rf", "float"), case.get("nf", "int")
+        ctx.label("range:" + rf)
+        rs, rv = [], []
+        for r in case["ranges"]:
+            (ol, vl), (oh, vh) = canon(rf, r[0]), canon(rf, r[1])
+            if not vl <= vh:
+                ol, vl, oh, vh = float(r[0]), float(r[0]), float(r[1]), float(r[1])
+            n = int(r[2])
+            rs.append((ol, oh, np.int64(n) if nf == "npint" else n))
+            rv.append((vl, vh, n))
         with ctx.cut("call"):
-            out = func(f, *rs)
+            out = func(fo, *rs)
         ctx.check(isinstance(out, tuple) and len(out) == dim + 1, "return", lambda: "%s returned %r" % (fn, type(out)))
-        axes = [_check_linspace(ctx, out[d], rs[d][0], rs[d][1], rs[d][2], d) for d in range(dim)]
-        _grid_check(ctx, fn, f, vector, axes, out[dim], 0)
-        ns = [r[2] for r in rs]
-        one = any(n == 1 for n in ns)
-        noncubic = dim >= 2 and len(set(ns)) == dim
-        if one:
-            ctx.label("n=1")
-        if noncubic:
-            ctx.label("non-cubic")
-        ctx.nt(one or noncubic)
+        axes = [_check_linspace(ctx, out[d], rv[d][0], rv[d][1], rv[d][2], d) for d in range(dim)]
+        _grid_check(ctx, fn, f, vector, axes, out[dim])
+        keep = tuple(a.copy() for a in out)
+        f.calls.clear()
+        with ctx.cut("call-again"):
+            out2 = func(fo, *rs)
+        _same_result(ctx, fn, keep, out, "first-result-intact")
+        _same_result(ctx, fn, out, out2, "second-call")
+        ns = [r[2] for r in rv]
     elif "points" in case:
         pts = [_fl(p) for p in case["points"]]
-        arg = _arr(case["as"], [p[0] for p in pts] if dim == 1 else pts, dim2=dim > 1)
+        arg, vals = _arr(case["as"], [p[0] for p in pts] if dim == 1 else pts, dim2=dim > 1)
+        ctx.label("form:" + case["as"])
+        pts = [[v] for v in vals] if dim == 1 else [list(v) for v in vals]
+        before = _snapshot(arg)
         with ctx.cut("call"):
-            v = func(f, arg)
+            v = func(fo, arg)
+        ctx.check(_snapshot(arg) == before, "caller-owned", lambda: "%s modified its points argument (%s)" % (fn, case["as"]))
         want_shape = (len(pts), 3) if vector else (len(pts),)
-        ctx.check(isinstance(v, np.ndarray) and v.shape == want_shape, "shape",
+        ctx.check(isinstance(v, np.ndarray) and v.shape == want_shape and v.dtype == np.float64, "shape",
                   lambda: "%s: result shape %r, expected %r" % (fn, getattr(v, "shape", None), want_shape))
         for i, p in enumerate(pts):
             want = f.value(tuple(p))
@@ -940,21 +1308,41 @@ def run_samplers(case, ctx):
                       lambda: "%s: out[%d] = %r but f%r = %r" % (fn, i, got, tuple(p), want))
         ctx.check(sorted(f.calls) == sorted(tuple(p) for p in pts), "calls",
                   lambda: "%s: evaluated at %r, points are %r" % (fn, f.calls, pts))
+        keep = v.copy()
+        with ctx.cut("call-again"):
+            v2 = func(fo, arg)
+        _same_result(ctx, fn, keep, v, "first-result-intact")
+        _same_result(ctx, fn, v, v2, "second-call")
+        if isinstance(arg, np.ndarray):
+            ctx.check(not np.shares_memory(v, arg), "caller-owned", "%s: result shares memory with the points argument" % fn)
         ctx.nt(len(pts) >= 2 and _distinct([tuple(p) for p in pts]))
+        return
     else:
-        axes = [_fl(a) for a in case["axes"]]
-        args = [_arr(case["as"], a) for a in axes]
+        pairs = [_arr(case["as"], _fl(a)) for a in case["axes"]]
+        ctx.label("form:" + case["as"])
+        args, axes = [a for a, _ in pairs], [list(vv) for _, vv in pairs]
+        before = [_snapshot(a) for a in args]
         with ctx.cut("call"):
-            v = func(f, *args)
-        _grid_check(ctx, fn, f, vector, axes, v, 0)
+            v = func(fo, *args)
+        ctx.check([_snapshot(a) for a in args] == before, "caller-owned", lambda: "%s modified a coordinate argument (%s)" % (fn, case["as"]))
+        _grid_check(ctx, fn, f, vector, axes, v)
+        keep = v.copy()
+        with ctx.cut("call-again"):
+            v2 = func(fo, *args)
+        _same_result(ctx, fn, keep, v, "first-result-intact")
+        _same_result(ctx, fn, v, v2, "second-call")
         ns = [len(a) for a in axes]
-        one = any(n == 1 for n in ns)
-        noncubic = len(set(ns)) == dim
-        if one:
-            ctx.label("n=1")
-        if noncubic:
-            ctx.label("non-cubic")
-        ctx.nt(one or noncubic)
+    one = any(n == 1 for n in ns)
+    noncubic = dim >= 2 and len(set(ns)) == dim
+    if one:
+        ctx.label("n=1")
+    if any(n == 2 for n in ns):
+        ctx.label("n=2")
+    if noncubic:
+        ctx.label("non-cubic")
+    if dim == 3 and ns[0] != ns[2]:
+        ctx.label("nx!=nz")
+    ctx.nt(one or noncubic)
 
 
 SUBCHECKS = {
